@@ -4,7 +4,7 @@
 export GOFLAGS=-mod=mod GOPROXY=off GOSUMDB=off GOTOOLCHAIN=local
 S=$(mktemp -d /dev/shm/baseline.XXXXXX)
 trap 'rm -rf "$S"' EXIT
-rsync -a --exclude .git /repo/ "$S/"
+rsync -a --exclude .git "${REPO:-/repo}/" "$S/"
 rc=0
 for m in cmd/build_sample_md fc pkg/buf pkg/dict pkg/frt pkg/slice pkg/strings pkg/sys tinyfo; do
   (cd "$S/$m" && go build ./... && go test -vet=off -count=1 -timeout 25m "$@" ./...) || rc=1
